@@ -24,12 +24,14 @@ of `check_timelocks` through `UNSATISFIABLE` (F10), and `lift` refusing policies
 commits); the model follows the repaired code and the theorems hold at full strength
 (`entails_iff`, `concrete_lift_equiv`, `check_timelocks_exact`, `concrete_lift_total`).
 
-Open findings of the faithful model (`is_safe_nonmalleable`, kernel-checked witness below):
-  `TRIVIAL` is given the flag `signed`, so `or(pk, TRIVIAL)` is reported to need a signature:
-  `is_safe_exact_full` is FALSE; proved exact for `TRIVIAL`-free policies
-  (`is_safe_exact_partial`).  The `non-malleable` flag is judged on every run against
-  `Spec.isNonMalleableSpec` (soundness; no theorem) and is unsound for `TRIVIAL` and for `or`
-  with more than two branches.
+No finding is open for this property.
+
+OBSERVATIONS outside the property's statement (`is_safe_nonmalleable` is not mentioned by C18; T8
+below documents the model, the check never alarms on it): `TRIVIAL` is given the flag `signed`,
+so `or(pk, TRIVIAL)` is reported to need a signature (`is_safe_exact_full_false`; exact for
+`TRIVIAL`-free policies: `is_safe_exact_partial`); the `non-malleable` flag is compared with
+`Spec.isNonMalleableSpec` on every run where the two agree today (no theorem) and differs for
+`TRIVIAL` and for `or` with more than two branches.
   `trivialFree c`    no `TRIVIAL` leaf                                   (Model/Concrete.lean)
 -/
 import MsVerif.Lemmas.PolicyOps
@@ -38,6 +40,7 @@ import MsVerif.Lemmas.PolicyLift
 import MsVerif.Lemmas.PolicyEntails
 import MsVerif.Lemmas.PolicySels
 import MsVerif.Lemmas.PolicySafe
+import MsVerif.Lemmas.PolicySort
 
 namespace MsVerif.C18
 open MsVerif.Pol MsVerif.Pol.Sem MsVerif.Pol.Conc
@@ -85,6 +88,26 @@ theorem sorted_truth_table (v : Atom → Bool) (p : Policy) : holdsA v (sorted p
 
 theorem sorted_holds (W : World) (p : Policy) : holds W (sorted p) = holds W p :=
   sorted_holdsA W.val p
+
+/-- the order `sorted` sorts by (`Ord for Policy`) is a lawful total order: `Equal` only on
+identical policies, antisymmetric, transitive -/
+theorem policy_order_lawful :
+    (∀ a b, cmp a b = .eq ↔ a = b) ∧ (∀ a b, cmp b a = (cmp a b).swap)
+    ∧ (∀ a b c, cmp a b = .lt → cmp b c = .lt → cmp a c = .lt) :=
+  ⟨cmp_eq_iff, cmp_swap, cmp_trans⟩
+
+/-- `sorted` only rearranges: the result is the input with children permuted … -/
+theorem sorted_is_child_permutation (p : Policy) : ChildPerm p (sorted p) := childPerm_sorted p
+
+/-- … and it is a NORMAL FORM of the children's order: two policies have the same `sorted` form
+iff one is the other with the children of thresholds (at any depth) permuted -/
+theorem sorted_normal_form (p q : Policy) : sorted p = sorted q ↔ ChildPerm p q := by
+  constructor
+  · intro h
+    have hq := (childPerm_sorted q).symm
+    rw [← h] at hq
+    exact (childPerm_sorted p).trans hq
+  · exact sorted_childPerm
 
 /-! ## T3 — `at_age`, `at_lock_time` -/
 
@@ -199,24 +222,88 @@ theorem minimum_n_keys_lower_bound (p : Policy) (m : Nat) (h : minimumNKeys p = 
   obtain ⟨s, hs, hall⟩ := hv
   exact Nat.le_trans (((minimum_n_keys_some p m).mp h).2 s hs) (nSigs_le_trueKeys v p s hs hall)
 
-/-- … and when no key is repeated some satisfying assignment makes exactly that many keys true:
-`minimum_n_keys` is the least number of signing keys over all satisfying assignments -/
+/-- … and when no key is repeated some satisfying assignment makes exactly that many keys true -/
 theorem minimum_n_keys_attained (p : Policy) (m : Nat) (h : minimumNKeys p = some m)
     (hd : ((atomsOf p).filter Atom.isKey).Nodup) :
     ∃ v, holdsA v p = true ∧ trueKeys v p = m := by
   obtain ⟨⟨s, hs, hm⟩, _⟩ := (minimum_n_keys_some p m).mp h
-  refine ⟨valOf s, ?_, ?_⟩
-  · rw [selections_characterise_truth, List.any_eq_true]
-    exact ⟨s, hs, by simp [valOf]⟩
-  · have hsub := (sels_sublist p s hs).filter Atom.isKey
-    have := nodup_filter_sublist hd hsub
-    have e : (atomsOf p).filter (fun a => a.isKey && valOf s a)
-        = ((atomsOf p).filter Atom.isKey).filter (fun a => (s.filter Atom.isKey).contains a) := by
-      rw [List.filter_filter]
-      apply List.filter_congr
-      intro a _
-      cases hk : a.isKey <;> simp [hk, valOf, List.contains_eq_mem]
-    rw [trueKeys, e, this, ← hm, nSigs, List.countP_eq_length_filter]
+  exact ⟨valOf s, holdsA_valOf_sel p s hs, by rw [trueKeys_valOf p s (sels_sublist p s hs) hd, hm]⟩
+
+/-- THE STATEMENT'S FORM: `minimum_n_keys` is the fewest signing keys over all satisfying
+assignments (`minTrueKeys`: brute force over every assignment of the policy's atoms; `None` iff
+none satisfies) — for every policy in which no key occurs twice -/
+theorem minimum_n_keys_eq_fewest_signers (p : Policy)
+    (hd : ((atomsOf p).filter Atom.isKey).Nodup) : minimumNKeys p = minTrueKeys p := by
+  cases hm : minimumNKeys p with
+  | none =>
+    have hun := (minimum_n_keys_none p).mp hm
+    have : (subsets (atomsOf p)).filter (fun ts => holdsA (valOf ts) p) = [] := by
+      apply List.filter_eq_nil_iff.mpr
+      intro ts _; simp [hun]
+    simp [minTrueKeys, this]
+  | some m =>
+    symm
+    rw [minTrueKeys, List.min?_eq_some_iff]
+    obtain ⟨⟨s, hs, hsm⟩, _⟩ := (minimum_n_keys_some p m).mp hm
+    constructor
+    · apply List.mem_map.mpr
+      refine ⟨s, List.mem_filter.mpr ⟨mem_subsets_of_sublist _ _ (sels_sublist p s hs), ?_⟩, hsm⟩
+      simpa using holdsA_valOf_sel p s hs
+    · intro b hb
+      obtain ⟨ts, hts, rfl⟩ := List.mem_map.mp hb
+      obtain ⟨hmem, hsat⟩ := List.mem_filter.mp hts
+      have hsub := sublist_of_mem_subsets _ _ hmem
+      have := minimum_n_keys_lower_bound p m hm (valOf ts) (by simpa using hsat)
+      rwa [trueKeys_valOf p ts hsub hd] at this
+
+/-- with REPEATED keys the library's number is an upper bound of the fewest signing keys (it
+counts one signature per key occurrence), and both are `None` together -/
+theorem minimum_n_keys_upper_bound (p : Policy) :
+    (minimumNKeys p = none ↔ minTrueKeys p = none)
+    ∧ ∀ m, minimumNKeys p = some m → ∃ m', minTrueKeys p = some m' ∧ m' ≤ m := by
+  constructor
+  · constructor
+    · intro hm
+      have hun := (minimum_n_keys_none p).mp hm
+      have : (subsets (atomsOf p)).filter (fun ts => holdsA (valOf ts) p) = [] := by
+        apply List.filter_eq_nil_iff.mpr
+        intro ts _; simp [hun]
+      simp [minTrueKeys, this]
+    · intro hn
+      cases hm : minimumNKeys p with
+      | none => rfl
+      | some m =>
+        exfalso
+        obtain ⟨⟨s, hs, _⟩, _⟩ := (minimum_n_keys_some p m).mp hm
+        have hmem : s ∈ (subsets (atomsOf p)).filter (fun ts => holdsA (valOf ts) p) :=
+          List.mem_filter.mpr ⟨mem_subsets_of_sublist _ _ (sels_sublist p s hs),
+            by simpa using holdsA_valOf_sel p s hs⟩
+        have : ((subsets (atomsOf p)).filter (fun ts => holdsA (valOf ts) p)).map nSigs = [] := by
+          simpa [minTrueKeys] using hn
+        rw [List.map_eq_nil_iff] at this
+        rw [this] at hmem; simp at hmem
+  · intro m hm
+    obtain ⟨⟨s, hs, hsm⟩, _⟩ := (minimum_n_keys_some p m).mp hm
+    have hmem : m ∈ ((subsets (atomsOf p)).filter (fun ts => holdsA (valOf ts) p)).map nSigs :=
+      List.mem_map.mpr ⟨s, List.mem_filter.mpr ⟨mem_subsets_of_sublist _ _ (sels_sublist p s hs),
+        by simpa using holdsA_valOf_sel p s hs⟩, hsm⟩
+    cases hmin : minTrueKeys p with
+    | none =>
+      have : ((subsets (atomsOf p)).filter (fun ts => holdsA (valOf ts) p)).map nSigs = [] := by
+        simpa [minTrueKeys] using hmin
+      rw [this] at hmem; simp at hmem
+    | some m' =>
+      refine ⟨m', rfl, ?_⟩
+      rw [minTrueKeys, List.min?_eq_some_iff] at hmin
+      exact hmin.2 m hmem
+
+/-- the bound is strict for `and(pk(0), pk(0))`: the library says 2, one key signs -/
+theorem minimum_n_keys_repeated_key_witness :
+    minimumNKeys (.thresh 2 [.atom (.key 0), .atom (.key 0)]) = some 2
+    ∧ minTrueKeys (.thresh 2 [.atom (.key 0), .atom (.key 0)]) = some 1 := by
+  constructor
+  · rw [minimum_n_keys_exact]; decide
+  · decide
 
 /-! ## T6 — lifting concrete policies -/
 
@@ -364,5 +451,53 @@ example : threshKPos (.thresh 2 [.atom (.older 1), .atom (.older 4194305), .unsa
     ∧ unsatFree (.thresh 2 [.atom (.older 1), .atom (.older 4194305), .atom (.key 0)]) = true
     ∧ checkTimelocks (.thresh 2 [.atom (.older 1), .atom (.older 4194305), .atom (.key 0)]) = false
     ∧ checkTimelocks (.or [.atom (.older 1), .atom (.older 4194305)]) = true := by decide
+
+
+/-! ### every hypothesis, on a nested policy with a threshold and a lock -/
+
+/-- the running example: `and(or(2@pk(0), 1@older(144)), thresh(2, pk(1), pk(2), after(500000001)))` -/
+def exC : CPolicy :=
+  .and [.or [.atom (.key 0), .atom (.older 144)],
+        .thresh 2 [.atom (.key 1), .atom (.key 2), .atom (.after 500000001)]]
+/-- and its abstract counterpart -/
+def exP : Policy :=
+  .thresh 2 [.thresh 1 [.atom (.key 0), .atom (.older 144)],
+             .thresh 2 [.atom (.key 1), .atom (.key 2), .atom (.after 500000001)]]
+
+-- WFC, threshKPos, andOrNonEmpty, trivialFree, unsatFree all hold of `exC`
+example : WFC exC = true ∧ threshKPos exC = true ∧ andOrNonEmpty exC = true
+    ∧ trivialFree exC = true ∧ unsatFree exC = true := by decide
+-- `concrete_lift_total` / `concrete_lift_refuses_iff_check`: lifted, and the result is `exP`
+example : lift exC = .ok exP := by rfl
+example : hasMixedPath exC = false ∧ checkTimelocks exC = true := by decide
+-- … and the refusing side of the same theorems: a nested mixed path
+example : andOrNonEmpty (.and [exC, .thresh 2 [.atom (.older 4194305), .atom (.key 3)]]) = true
+    ∧ threshKPos (.and [exC, .thresh 2 [.atom (.older 4194305), .atom (.key 3)]]) = true
+    ∧ hasMixedPath (.and [exC, .thresh 2 [.atom (.older 4194305), .atom (.key 3)]]) = true := by
+  decide
+-- `is_safe_exact_partial`: `exC` is not safe (older(144) + after(..) + one key … no: two of
+-- {pk1, pk2, after} always include a key) — it IS safe; dropping a key makes it unsafe
+example : (isSafeNonmalleable exC).1 = true ∧ isSafeSpec exC = true := by decide
+example : WFC (.and [.or [.atom (.key 0), .atom (.older 144)],
+      .thresh 1 [.atom (.key 1), .atom (.after 500000001)]]) = true
+    ∧ isSafeSpec (.and [.or [.atom (.key 0), .atom (.older 144)],
+      .thresh 1 [.atom (.key 1), .atom (.after 500000001)]]) = false := by decide
+-- `normalized_fixes_normal_forms`, `normal_form_constants`: `exP` is a normal form
+example : NF exP = true := by decide
+-- `minimum_n_keys_eq_fewest_signers` / `_attained`: the keys of `exP` are pairwise distinct
+example : ((atomsOf exP).filter Atom.isKey).Nodup := by decide
+example : minTrueKeys exP = some 1 := by decide
+example : minimumNKeys exP = some 1 := by rw [minimum_n_keys_exact]; decide
+-- `at_age_exact` / `at_age_holds`: an age below the lock removes the `older` branch
+example : atAge 100 exP
+    = .thresh 2 [.atom (.key 0), .thresh 2 [.atom (.key 1), .atom (.key 2), .atom (.after 500000001)]] := by
+  rfl
+-- `sorted_normal_form`: swapping children at both levels is a `ChildPerm`, the sorted forms agree
+example : ChildPerm exP (.thresh 2 [.thresh 2 [.atom (.after 500000001), .atom (.key 2), .atom (.key 1)],
+    .thresh 1 [.atom (.older 144), .atom (.key 0)]]) :=
+  .trans (.perm 2 (List.Perm.swap _ _ _))
+    (.congr 2 (.cons (.perm 2 (show List.Perm [Policy.atom (.key 1), .atom (.key 2), .atom (.after 500000001)] _ from
+        List.reverse_perm [Policy.atom (.after 500000001), .atom (.key 2), .atom (.key 1)]))
+      (.cons (.perm 1 (List.Perm.swap _ _ _)) .nil)))
 
 end MsVerif.C18
